@@ -32,7 +32,7 @@ def pure_targets(prog):
 def run(tier, seed):
     ck = Check("C20", "model_checking", tier, seed)
     rnd = random.Random(seed * 71 + 20)
-    tres, origs = rf.originals(seed + 201, 150 if tier == "quick" else 1500, size=5, err_rate=0.0)
+    tres, origs = rf.originals(seed + 201, 400 if tier == "quick" else 3000, size=5, err_rate=0.0)
     ck.add_tlc(tres)
     origs = [(p, s, e) for p, s, e in origs if not rf.has_kind(p, {"set", "upd"})]
     jobs, meta = [], []
@@ -73,7 +73,7 @@ def run(tier, seed):
             ck.fail(key, f"after extract {what} of `{text[:60]}` the program {problem}", rep)
         elif len(ck.cov["samples"]) < 3 and len(text) > 8:
             ck.sample({"what": what, "expression": text, "refactored_tail": news[i][-200:]})
-    vacuity(done["variable"] > 80 and done["function"] > 80, f"extractions performed: {done}, refused: {refused}")
+    vacuity(done["variable"] > 40 and done["function"] > 40, f"extractions performed: {done}, refused: {refused}")
     ck.assumptions += ["targets are expressions built from literals, variables, operators, parentheses, lists, tuples, constructors and built-in method calls in programs without assignments that the reference runs to completion",
                        "`extracted` does not occur in generated programs"]
     return ck.finish(rule="seeded generated assignment-free programs x seeded pure sub-expressions (3 / 6 per program) x {variable, function}; non-trivial = extractions that were performed",
